@@ -59,7 +59,9 @@ func cmpNA(pf *sipsp.PFromBody, na *gen.NASpec, buf []byte, kind sipsp.HdrT) (st
 			return fmt.Sprintf("V = %s, the complete trimmed value is %s", got(pf.V), txt(na.V)), ""
 		}
 	}
-	if !pfIs(pf.URI, na.URI) {
+	// (for the '*' form only the indicator is stated: the star is not a URI, so whether the URI
+	// field points at it or stays empty is open)
+	if !pfIs(pf.URI, na.URI) && !(na.Star && pf.URI.Len == 0) {
 		return fmt.Sprintf("URI = %s, written URI is %s", got(pf.URI), txt(na.URI)), ""
 	}
 	if na.HasName {
